@@ -154,9 +154,10 @@ def _parse_raw_data(region_str):
                 'composite_meta': dict(composite_meta or {}),
                 'n_region_data': len(region_data)}
 
-    # split on semicolons & newlines
-    for line in _verif.traced(_split_lines(region_str), 'ds9.read.line',
-                              _state):
+    for line in _split_lines(region_str):  # split on semicolons & newlines
+        # (verif) the state before this line = the state after the last one
+        _verif.emit('ds9.read.line', _state)
+
         # skip blank lines
         if not line:
             continue
@@ -245,6 +246,7 @@ def _parse_raw_data(region_str):
             if '||' not in line and composite_meta:
                 composite_meta = {}
 
+    _verif.emit('ds9.read.line', _state)  # (verif) after the last line
     return region_data
 
 
